@@ -6,6 +6,9 @@ import (
 	"fmt"
 	"strings"
 
+	"github.com/btcsuite/btcd/btcec/v2"
+	"github.com/btcsuite/btcd/chainhash/v2"
+
 	"github.com/lightningnetwork/lnd/channeldb"
 	"github.com/lightningnetwork/lnd/lntypes"
 	"github.com/lightningnetwork/lnd/lnwallet"
@@ -55,6 +58,18 @@ func projection(st *channeldb.OpenChannel) string {
 		_ = st.RevocationStore.Encode(&rs)
 	}
 	fmt.Fprintf(&b, " store%x status%v", rs.Bytes(), st.ChanStatus())
+	// static channel parameters every script derivation depends on
+	fmt.Fprintf(&b, " type%d init%v cap%d thaw%d scid%v fo%v", st.ChanType, st.IsInitiator, st.Capacity, st.ThawHeight, st.ShortChannelID, st.FundingOutpoint)
+	for _, c := range []*channeldb.ChannelConfig{&st.LocalChanCfg, &st.RemoteChanCfg} {
+		fmt.Fprintf(&b, " cfg{d%d r%d csv%d min%d maxp%d maxh%d", c.DustLimit, c.ChanReserve, c.CsvDelay, c.MinHTLC, c.MaxPendingAmount, c.MaxAcceptedHtlcs)
+		for _, k := range []*btcec.PublicKey{c.MultiSigKey.PubKey, c.RevocationBasePoint.PubKey, c.PaymentBasePoint.PubKey, c.DelayBasePoint.PubKey, c.HtlcBasePoint.PubKey} {
+			if k != nil {
+				fmt.Fprintf(&b, " %x", k.SerializeCompressed()[:6])
+			}
+		}
+		b.WriteString("}")
+	}
+	st.TapscriptRoot.WhenSome(func(h chainhash.Hash) { fmt.Fprintf(&b, " tap%x", h[:6]) })
 	return b.String()
 }
 
@@ -408,6 +423,12 @@ func (w *World) probeLiveReest(i int) error {
 	err := p.ch.ReceiveNewCommitment(&lnwallet.CommitSigs{CommitSig: mm.CommitSig, HtlcSigs: mm.HtlcSigs, PartialSig: mm.PartialSig})
 	if err != nil {
 		w.recvErr(p, "ReceiveNewCommitment", err)
+		return nil
+	}
+	if w.Hooks.OnMidStep != nil {
+		w.Hooks.OnMidStep(w, i)
+	}
+	if !w.P.ProbeLiveReest {
 		return nil
 	}
 	peerMsg, err := q.ch.State().ChanSyncMsg()
